@@ -165,6 +165,20 @@ fn parse_args() -> Args {
 }
 
 fn main() {
+    if std::env::var("VCHECK_F13_WITNESS").is_ok() {
+        // F13 witness, in a process of its own: a recursive declaration nested 200 000 deep (600 KB of input) decoded
+        // on a thread with an ordinary 2 MiB stack
+        let d = props::derived::batch().specials.iter().find(|d| d.name == "RecList").cloned().expect("RecList");
+        let ty = vmodel::Ty::Adt(d);
+        let mut bytes = Vec::new();
+        for _ in 0..200_000 {
+            bytes.extend_from_slice(&[0, 7, 1]);
+        }
+        bytes.extend_from_slice(&[0, 7, 0]);
+        let h = std::thread::Builder::new().stack_size(2 << 20).spawn(move || vcat::decode_only(&ty, &bytes).map(|_| ()).map_err(|e| e.kind)).expect("spawn");
+        println!("survived: {:?}", h.join().map_err(|_| "panic"));
+        return;
+    }
     if std::env::var("VCHECK_F26_WITNESS").is_ok() {
         println!("survived: {}", vcat::statics::f26_witness());
         return;
